@@ -386,7 +386,8 @@ func (g *G) stmt(depth int) []*N {
 			kinds = append(kinds, "callstmt")
 		}
 	}
-	if len(g.makers) > 0 {
+	if len(g.makers) > 0 && f.noCalls == 0 {
+		// (a maker's body may throw: no maker calls where calls are excluded)
 		kinds = append(kinds, "mkdecl")
 	}
 	if g.p.Throw && g.p.Methods && f.isFn && !f.noReturn && !f.isGen && depth < g.p.MaxDepth && f.inFinally == 0 && f.inHandler == 0 && f.noCalls == 0 {
@@ -907,7 +908,14 @@ func (g *G) callExpr(depth int) *N {
 	c := cs[g.draw(len(cs), "callee")]
 	if g.p.Deep && c.np == 0 && g.lookupType(c.name) == TFn0 && g.chance(3, "deep") {
 		g.usesDeep = true
-		return &N{K: "call", S: "deep", T: TInt, C: []*N{{K: "int", I: int64(rapid.IntRange(20, 140).Draw(g.t, "deepn")), T: TInt}, {K: "var", S: c.name, T: TFn0}}}
+		hi := 140
+		if g.p.Throw {
+			// recorded finding (C13 deep-caught-throw-corrupts-frames): an error thrown and caught below roughly
+			// 85..110 active frames intermittently corrupts a call frame; programs that can throw keep their
+			// deep calls well below that depth
+			hi = 50
+		}
+		return &N{K: "call", S: "deep", T: TInt, C: []*N{{K: "int", I: int64(rapid.IntRange(20, hi).Draw(g.t, "deepn")), T: TInt}, {K: "var", S: c.name, T: TFn0}}}
 	}
 	n := &N{K: "call", S: c.name, T: TInt}
 	for i := 0; i < c.np; i++ {
